@@ -249,3 +249,29 @@ Proof.
   unfold ancestors. intros H. apply descendants_sound in H as [y [H1 H2]]. apply gpath_rev in H2.
   eapply gpath_snoc; [exact H2|]. cbn in H1. apply in_map_iff in H1 as [[a b] [E H1]]. cbn in E. inversion E; subst. exact H1.
 Qed.
+
+(* the layers of a successful Kahn run partition the remaining nodes *)
+Lemma filter_NoDup {A} (f : A -> bool) l : NoDup l -> NoDup (filter f l).
+Proof.
+  induction 1; cbn; [constructor|]. destruct (f x); [constructor; [|assumption]|assumption].
+  intros Hin. apply filter_In in Hin. tauto.
+Qed.
+
+Lemma kahn_partition g : forall fuel rem ls, NoDup rem -> kahn fuel g rem = Some ls ->
+  NoDup (concat ls) /\ (forall v, In v (concat ls) <-> In v rem).
+Proof.
+  induction fuel as [|fuel IH]; intros rem ls Hnd H.
+  - destruct rem; cbn in H; [|discriminate]. inversion H; subst. cbn. split; [constructor|tauto].
+  - destruct rem as [|r0 rem0]; [cbn in H; inversion H; subst; cbn; split; [constructor|tauto]|].
+    rewrite kahn_cons in H. set (rem := r0 :: rem0) in *.
+    destruct (filter (ready g rem) rem) as [|a b] eqn:El; [discriminate|]. set (layer := a :: b) in *.
+    destruct (kahn fuel g (diff_str rem layer)) as [ls'|] eqn:Ek; [|discriminate]. inversion H; subst ls. clear H.
+    assert (Hlnd : NoDup layer) by (subst layer; rewrite <- El; now apply filter_NoDup).
+    assert (Hlsub : forall v, In v layer -> In v rem).
+    { intros v Hv. subst layer. rewrite <- El in Hv. now apply filter_In in Hv. }
+    destruct (IH (diff_str rem layer) ls' (filter_NoDup _ _ Hnd) Ek) as [H1 H2]. cbn [concat]. split.
+    + apply NoDup_app_intro; auto. intros x Hx Hx'. apply H2 in Hx'. apply diff_str_In in Hx'. tauto.
+    + intros v. rewrite in_app_iff, H2, diff_str_In. split.
+      * intros [Hv|[Hv _]]; auto.
+      * intros Hv. destruct (in_dec str_eq_dec v layer); [now left|right; tauto].
+Qed.
